@@ -435,3 +435,49 @@ def run(ck, prog):
 
 EXPLANATION += (" The stopping test does not divide the gap by the dual-objective accumulator, which is exactly 0 for a constant "
                 "target (found and fixed: Err for every constant y).")
+
+
+# ------------------------------------------------------------------ inside the optimizer the targets take part in arithmetic only in centred form
+_run_pre_rawy = run
+
+
+def optimizer_uses_centred_targets(ck, prog):
+    """The objective is ||y - mean(y) - Z w||^2: optimize() centres its target argument first.  A product / norm / dot that
+    is computed from the raw argument (a term that contains the parameter y but no mean(y)) - e.g. a screening test
+    2 |X'y|_inf <= lambda placed before the centring - makes the result depend on the target offset."""
+    rule, inst = "E2f-centred", "InteriorPointOptimizer::optimize: the targets enter products and norms only after centring"
+    bs = prog.find(r"InteriorPointOptimizer::<T, M>::optimize$")
+    if len(bs) != 1:
+        ck.violation(rule, inst, "optimize", "", expected="anchor exists", found=f"{len(bs)} bodies")
+        return
+    b = bs[0]
+    ys = [i for i in range(1, b.arg_count + 1) if (b.local_name(i) or "") == "y"]
+    if not ys:
+        ck.note(f"{inst}: no parameter named y: no instance")
+        return
+    yarg = ys[0]
+    res = BodyCtx.of(b).res
+    ARITH = ("ab", "matmul", "dot", "norm", "norm2", "mul", "mul_mut", "add", "add_mut", "sub", "sub_mut", "sum", "max", "min", "abs")
+    n = 0
+    for bb, t in b.calls():
+        f = t.get("f")
+        if not f or f["path"].split("::")[-1] not in ARITH:
+            continue
+        for a in t["args"]:
+            term = res.operand(a)
+            subs = list(subterms(term))
+            if any(s[0] == "arg" and s[1] == yarg for s in subs):
+                n += 1
+                if any(s[0] == "call" and s[1].split("::")[-1] == "mean" for s in subs):
+                    continue
+                ck.violation(rule, inst, b.path, b.where(bb), ordinal=n, expected="y - mean(y) wherever the targets are multiplied, summed or normed",
+                             found=f"{f['path'].split('::')[-1]}(.. {render(term)[:60]} ..) is computed from the raw target argument")
+    ck.ok(rule, inst, b.path, f"{b.loc[0]}:{b.loc[1]}", f"{n} arithmetic use(s) of the target argument, all containing mean(y)")
+
+
+def run(ck, prog):
+    _run_pre_rawy(ck, prog)
+    optimizer_uses_centred_targets(ck, prog)
+
+
+EXPLANATION += " Inside optimize() the target argument takes part in products, dots and norms only in centred form (terms containing mean(y))."
